@@ -148,6 +148,19 @@ def main(argv=None):
     if extra is not None and not a.only:
         for fn, cfg, ob in extra(tier):
             obligations.append((fn, cfg, ob))
+    # A refuted loop obligation means "the sidecar invariant is not inductive for this loop".  That decides
+    # nothing about the property (an equivalent rewrite of the loop does the same), and everything proved or
+    # refuted AFTER such a cut in the same configuration rests on an invariant that was not established.
+    # For contracts that come with loop-free companion configurations (concrete shapes, symbolic values)
+    # those configurations decide: refutations of a configuration with a failed cut become `undecided`.
+    tainted = set()
+    for fn, cfg, ob in obligations:
+        if ob["verdict"] == "refuted" and ob["name"].startswith("loop.") and getattr(ct.REGISTRY.get(fn), "loop_needs_confirmation", False):
+            tainted.add((fn, repr(sorted(verify._cfg_repr(cfg).items()))))
+    for fn, cfg, ob in obligations:
+        if (fn, repr(sorted(verify._cfg_repr(cfg).items()))) in tainted and ob["verdict"] == "refuted" and not ob.get("canary"):
+            ob["verdict"] = "unknown"
+            ob["backend"] = str(ob.get("backend")) + " (loop invariant not inductive in this configuration: undecided here, see the loop-free configurations)"
     n_total = len(obligations)
     proved = refuted = unknown = 0
     by_backend = {}
@@ -211,7 +224,7 @@ def main(argv=None):
     if undecided and rc == 0:
         rc = 2
         for fn, cfg, ob in undecided[:10]:
-            lines.append("UNDECIDED property=%s %s %s cfg=%s (solver returned unknown within budget)" % (prop, fn, ob["name"], verify._cfg_repr(cfg)))
+            lines.append("UNDECIDED property=%s %s %s cfg=%s (%s)" % (prop, fn, ob["name"], verify._cfg_repr(cfg), str(ob.get("backend", "solver returned unknown within budget"))[:160]))
     if broken or canary_fail or n_total == 0:
         # a violation stays a violation (a deliberately wrong clause may well become true of changed code);
         # without one, a failed self-check means the run decides nothing
